@@ -1159,7 +1159,7 @@ impl E2e {
                 if f["seq"].as_u64() != Some(i as u64) {
                     return Ok((
                         vec![RunOut { label: "session_seq_not_consecutive", planned: ch.sizes.clone(), observed, frames: session_frames.clone() }],
-                        store.log_bytes(),
+                        store.log_bytes_settled(),
                     ));
                 }
             }
@@ -1196,13 +1196,13 @@ impl E2e {
             if !contiguous {
                 return Ok((
                     vec![RunOut { label: "provider_frames_not_contiguous", planned: ch.sizes.clone(), observed, frames: session_frames.clone() }],
-                    store.log_bytes(),
+                    store.log_bytes_settled(),
                 ));
             }
             self.runs += 1;
             outs.push(RunOut { label: ch.label, planned: ch.sizes.clone(), observed, frames });
         }
-        let log = store.log_bytes();
+        let log = store.log_bytes_settled();
         drop(app);
         Ok((outs, log))
     }
